@@ -354,8 +354,66 @@ func short(s string) string {
 
 func checkComponent(c *vm.Ctx, r *vm.Rand, i int) {
 	feats := map[string]bool{}
-	forNBT := true
-	m := genMsg(r, genCfg{forNBT: forNBT}, feats)
+	m := genMsg(r, genCfg{forNBT: true}, feats)
+	checkMsg(c, m, feats, i)
+}
+
+// checkShapes: components far wider or deeper than the grammar above produces - hundreds of siblings under one parent
+// (a long chat line assembled piece by piece, a translation with many arguments), single-child chains a few dozen
+// levels deep - through the same round trips, and as the sender of a chat-type header.
+func checkShapes(c *vm.Ctx, r *vm.Rand, i int) {
+	feats := map[string]bool{}
+	leaf := func() chat.Message {
+		if r.Intn(4) == 0 {
+			return genMsg(r, genCfg{forNBT: true, depth: 3}, feats)
+		}
+		return chat.Message{Text: genStr(r) + "w"}
+	}
+	var m chat.Message
+	width := []int{64, 255, 256, 257, 300, 700, 1500}[r.Intn(7)]
+	kind := []string{"extra", "with", "extra-below", "deep"}[i%4]
+	switch kind {
+	case "extra":
+		m.Text = "head"
+		for k := 0; k < width; k++ {
+			m.Extra = append(m.Extra, leaf())
+		}
+	case "with":
+		m.Translate = "verif.unknown.key.wide"
+		for k := 0; k < width; k++ {
+			m.With = append(m.With, leaf())
+		}
+	case "extra-below":
+		inner := chat.Message{Text: "inner"}
+		for k := 0; k < width; k++ {
+			inner.Extra = append(inner.Extra, leaf())
+		}
+		m.Text = "outer"
+		m.Extra = []chat.Message{leaf(), inner, leaf()}
+	case "deep":
+		width = r.Range(5, 40)
+		m = leaf()
+		for k := 0; k < width; k++ {
+			up := chat.Message{Text: genStr(r) + "d"}
+			if k%3 == 2 {
+				up = chat.Message{Translate: "verif.unknown.key.deep", With: []any{m}}
+			} else {
+				up.Extra = []chat.Message{m}
+			}
+			m = up
+		}
+	}
+	feats["shape."+kind] = true
+	if kind != "deep" && width >= 256 {
+		feats["shape.256-or-more-siblings"] = true
+	}
+	checkMsg(c, m, feats, 99)
+	if (i/4)%2 == 0 {
+		checkTypeOf(c, chat.Type{ID: int32(r.Intn(50)), SenderName: m}, "shape-"+kind)
+	}
+}
+
+func checkMsg(c *vm.Ctx, m chat.Message, feats map[string]bool, i int) {
 	js, _ := json.Marshal(m)
 	desc := short(string(js))
 	wit := func() any { return map[string]any{"component_json": desc} }
@@ -667,11 +725,23 @@ func checkForms(c *vm.Ctx, r *vm.Rand) {
 func checkType(c *vm.Ctx, r *vm.Rand) {
 	feats := map[string]bool{}
 	t := chat.Type{ID: int32(r.Intn(50)), SenderName: genMsg(r, genCfg{forNBT: true, depth: 3}, feats)}
+	if r.Intn(4) == 0 {
+		t.ID = []int32{127, 128, 300, 16383, 16384, 1 << 21, 0x7fffffff}[r.Intn(7)]
+	}
 	withTarget := r.Bool()
 	if withTarget {
 		tm := genMsg(r, genCfg{forNBT: true, depth: 3}, feats)
 		t.TargetName = &tm
 	}
+	cls := "without-target"
+	if withTarget {
+		cls = "with-target"
+	}
+	checkTypeOf(c, t, cls)
+}
+
+func checkTypeOf(c *vm.Ctx, t chat.Type, cls string) {
+	withTarget := t.TargetName != nil
 	wit := func() any {
 		js, _ := json.Marshal(t.SenderName)
 		return map[string]any{"id": t.ID, "sender": short(string(js)), "with_target": withTarget}
@@ -687,15 +757,32 @@ func checkType(c *vm.Ctx, r *vm.Rand) {
 		c.Violation("type/write", fmt.Sprintf("chat.Type.WriteTo: n=%d err=%v, %d bytes produced", wn, err, buf.Len()), wit())
 		return
 	}
+	// the layout: VarInt id, sender as a network-format NBT value, a flag byte, then the target if the flag is 1.
+	// (The NBT form of a component is judged by the independent reader in checkMsg; here only the framing is.)
+	{
+		want := refwire.EncVarInt(t.ID)
+		var part bytes.Buffer
+		t.SenderName.WriteTo(&part)
+		want = append(want, part.Bytes()...)
+		if withTarget {
+			want = append(want, 1)
+			part.Reset()
+			t.TargetName.WriteTo(&part)
+			want = append(want, part.Bytes()...)
+		} else {
+			want = append(want, 0)
+		}
+		if !bytes.Equal(want, buf.Bytes()) {
+			c.Violation("type/layout/"+cls, fmt.Sprintf("chat-type header is not VarInt(id) ++ sender ++ flag ++ target: %d bytes, expected %d", buf.Len(), len(want)), wit())
+			return
+		}
+		c.Cover("type.layout")
+	}
 	var back chat.Type
 	rd := bytes.NewReader(append(append([]byte{}, buf.Bytes()...), 9, 9, 9))
 	var rn int64
 	if c.Guard("type/read", wit, func() { rn, err = back.ReadFrom(rd) }) {
 		return
-	}
-	cls := "without-target"
-	if withTarget {
-		cls = "with-target"
 	}
 	if err != nil {
 		c.Violation("type/read-error/"+cls, "chat.Type.ReadFrom of the header just written failed: "+err.Error(), wit())
@@ -820,6 +907,10 @@ func run(c *vm.Ctx) {
 	r := c.Rand("components")
 	for i := 0; i < c.Scale(30000, 800000); i++ {
 		checkComponent(c, r, i)
+	}
+	sr := c.Rand("shapes")
+	for i := 0; i < c.Scale(160, 3000); i++ {
+		checkShapes(c, sr, i)
 	}
 	er := c.Rand("extra")
 	for i := 0; i < c.Scale(3000, 60000); i++ {
